@@ -417,6 +417,14 @@ func (s *safety) toLin(v ssa.Value, facts *[]ineq, depth int) lin {
 			}
 		}
 	case *ssa.Call:
+		switch s.p.X(x).Name {
+		case "slices.IndexFunc", "slices.Index", "bytes.IndexByte", "bytes.Index", "strings.IndexByte", "strings.Index":
+			// -1 <= n <= len(arg0) - 1
+			n := s.opaque(v, facts)
+			l := s.lenLin(x.Call.Args[0], facts, depth+1)
+			*facts = append(*facts, ineq{n.add(newLin(-1), -1)}, ineq{l.add(n, -1).add(newLin(1), -1)})
+			return n
+		}
 		if bi, ok := x.Call.Value.(*ssa.Builtin); ok {
 			switch bi.Name() {
 			case "len":
@@ -571,37 +579,83 @@ func deref2(t types.Type) types.Type {
 	return t
 }
 
-// classOf value-numbers field loads (and loads of fields of local structs).
+// classOf value-numbers loads: two loads of the same field of the same base,
+// of the same local variable, or through the same pointer value are one atom
+// when nothing that may write that place lies between them. Field selections
+// on struct values are pure.
 func (s *safety) classOf(v ssa.Value) ssa.Value {
 	if c, ok := s.loadCl[v]; ok {
 		return c
+	}
+	if f, ok := v.(*ssa.Field); ok {
+		rep := ssa.Value(f)
+		base := s.classOf(f.X)
+		for _, b := range f.Parent().Blocks {
+			for _, in := range b.Instrs {
+				if f2, ok := in.(*ssa.Field); ok && f2 != f && f2.Field == f.Field && s.classOf(f2.X) == base {
+					if core.Before(f2, f) && (rep == ssa.Value(f) || core.Before(f2, rep.(ssa.Instruction))) {
+						rep = f2
+					}
+				}
+			}
+		}
+		s.loadCl[v] = rep
+		return rep
 	}
 	u, ok := v.(*ssa.UnOp)
 	if !ok || u.Op != token.MUL {
 		return v
 	}
-	fa, ok := u.X.(*ssa.FieldAddr)
-	if !ok {
-		return v
-	}
-	fld := fieldVar(fa)
 	fn := u.Parent()
 	rep := ssa.Value(u)
+	fa, isField := u.X.(*ssa.FieldAddr)
+	cell := s.p.CellRoot(u.X)
 	for _, b := range fn.Blocks {
 		for _, in := range b.Instrs {
 			u2, ok := in.(*ssa.UnOp)
-			if !ok || u2 == u || u2.Op != token.MUL {
+			if !ok || u2 == u || u2.Op != token.MUL || !core.Before(u2, u) {
 				continue
 			}
-			fa2, ok := u2.X.(*ssa.FieldAddr)
-			if !ok || fieldVar(fa2) != fld || !sameBase(s, fa.X, fa2.X) {
-				continue
+			same := false
+			switch {
+			case isField:
+				fa2, ok := u2.X.(*ssa.FieldAddr)
+				same = ok && fieldVar(fa2) == fieldVar(fa) && sameBase(s, fa.X, fa2.X) && s.noKill(u2, u, fieldVar(fa), fa.X)
+			case cell != nil:
+				same = s.p.CellRoot(u2.X) == cell && u2.Parent() == cell.Parent() && s.noKillPlace(u2, u, func(in ssa.Instruction) bool {
+					switch x := in.(type) {
+					case *ssa.Store:
+						return s.p.CellRoot(x.Addr) == cell
+					case ssa.CallInstruction:
+						for _, a := range x.Common().Args {
+							if s.p.CellRoot(a) == cell {
+								return true
+							}
+						}
+						// a literal that captures the variable may write it
+						if _, isGo := in.(*ssa.Go); isGo {
+							return true
+						}
+					}
+					return false
+				})
+			default:
+				same = u2.X == u.X && s.noKillPlace(u2, u, func(in ssa.Instruction) bool {
+					switch x := in.(type) {
+					case *ssa.Store:
+						return x.Addr == u.X || x.Addr.Type() == u.X.Type()
+					case ssa.CallInstruction:
+						for _, a := range x.Common().Args {
+							if a == u.X || a.Type() == u.X.Type() {
+								return true
+							}
+						}
+					}
+					return false
+				})
 			}
-			if core.Before(u2, u) && s.noKill(u2, u, fld, fa.X) {
-				// prefer the earliest
-				if rep == ssa.Value(u) || core.Before(u2, rep.(ssa.Instruction)) {
-					rep = u2
-				}
+			if same && (rep == ssa.Value(u) || core.Before(u2, rep.(ssa.Instruction))) {
+				rep = u2
 			}
 		}
 	}
@@ -639,6 +693,10 @@ func sameBase(s *safety, a, b ssa.Value) bool {
 // noKill: no store to fld and no module call that may store it on any path
 // from a to b that does not run through a again.
 func (s *safety) noKill(a, b ssa.Instruction, fld *types.Var, base ssa.Value) bool {
+	return s.noKillPlace(a, b, func(in ssa.Instruction) bool { return s.killsField(in, fld, base) })
+}
+
+func (s *safety) killsField(in ssa.Instruction, fld *types.Var, base ssa.Value) bool {
 	kills := func(in ssa.Instruction) bool {
 		switch x := in.(type) {
 		case *ssa.Store:
@@ -665,6 +723,12 @@ func (s *safety) noKill(a, b ssa.Instruction, fld *types.Var, base ssa.Value) bo
 		}
 		return false
 	}
+	return kills(in)
+}
+
+// noKillPlace: no instruction satisfying kills lies on a path from a to b
+// that does not run through a again.
+func (s *safety) noKillPlace(a, b ssa.Instruction, kills func(ssa.Instruction) bool) bool {
 	ba, bb := a.Block(), b.Block()
 	if ba == bb && core.InstrIndex(a) < core.InstrIndex(b) {
 		for i := core.InstrIndex(a) + 1; i < core.InstrIndex(b); i++ {
@@ -684,9 +748,22 @@ func (s *safety) noKill(a, b ssa.Instruction, fld *types.Var, base ssa.Value) bo
 			return false
 		}
 	}
-	// intermediate blocks: reachable from ba's successors without passing ba, and able to reach bb
-	fwd := core.Reachable(ba, map[*ssa.BasicBlock]bool{})
-	_ = fwd
+	// intermediate blocks: on a path ba -> ... -> bb that does not pass ba again
+	canReachBB := map[*ssa.BasicBlock]bool{bb: true}
+	{
+		stack := []*ssa.BasicBlock{bb}
+		for len(stack) > 0 {
+			x := stack[len(stack)-1]
+			stack = stack[:len(stack)-1]
+			for _, pr := range x.Preds {
+				if pr == ba || canReachBB[pr] {
+					continue
+				}
+				canReachBB[pr] = true
+				stack = append(stack, pr)
+			}
+		}
+	}
 	seen := map[*ssa.BasicBlock]bool{ba: true}
 	var stack []*ssa.BasicBlock
 	for _, sx := range ba.Succs {
@@ -699,10 +776,7 @@ func (s *safety) noKill(a, b ssa.Instruction, fld *types.Var, base ssa.Value) bo
 			continue
 		}
 		seen[x] = true
-		if x == bb {
-			continue // instructions before b already checked; paths beyond b do not matter... but a loop through bb back to bb does
-		}
-		if !(x == bb || core.CanReach(x, bb)) {
+		if x == bb || !canReachBB[x] {
 			continue
 		}
 		for _, in := range x.Instrs {
@@ -738,7 +812,7 @@ func (s *safety) noKill(a, b ssa.Instruction, fld *types.Var, base ssa.Value) bo
 				}
 			}
 			for x := range sn {
-				if x == ba || !core.CanReach(x, bb) {
+				if x == ba || !canReachBB[x] {
 					continue
 				}
 				for _, in := range x.Instrs {
@@ -796,6 +870,16 @@ func (s *safety) guardFacts(b *ssa.BasicBlock, facts *[]ineq) {
 }
 
 func (s *safety) factOfGuard(g core.Guard, facts *[]ineq) {
+	// cryptobyte: !x.Empty()  <=>  len(x) >= 1
+	if c, ok := g.Cond.(*ssa.Call); ok && len(c.Call.Args) == 1 && s.p.X(c).Name == "(cryptobyte.String).Empty" {
+		l := s.lenLin(c.Call.Args[0], facts, 0)
+		if g.Pol {
+			*facts = append(*facts, ineq{newLin(0).add(l, -1)}) // len <= 0
+		} else {
+			*facts = append(*facts, ineq{l.add(newLin(1), -1)})
+		}
+		return
+	}
 	bo, ok := g.Cond.(*ssa.BinOp)
 	if !ok {
 		return
@@ -1264,6 +1348,11 @@ type site2 struct {
 
 // indexSafety checks every site in fns.
 func indexSafety(p *core.Prog, r *core.Run, rule string, fns []*ssa.Function, floor int) {
+	indexSafetyWith(p, r, rule, fns, floor, nil)
+}
+
+// indexSafetyWith additionally takes a judge for unchecked type assertions.
+func indexSafetyWith(p *core.Prog, r *core.Run, rule string, fns []*ssa.Function, floor int, assertOK func(*ssa.TypeAssert) (bool, string)) {
 	s := newSafety(p, fns)
 	s.inferParamBounds(fns)
 	nSites := 0
@@ -1372,6 +1461,13 @@ func indexSafety(p *core.Prog, r *core.Run, rule string, fns []*ssa.Function, fl
 					if x.CommaOk {
 						continue
 					}
+					if assertOK != nil {
+						if ok, why := assertOK(x); ok {
+							nSites++
+							r.Check(rule, fmt.Sprintf("%s:assert %s", p.FuncName(fn), p.X(x).Name), true, p.InstrPos(in), "type assertion %s: %s", short(p.X(x)), why)
+							continue
+						}
+					}
 					nSites++
 					r.Check(rule, fmt.Sprintf("%s:assert %s", p.FuncName(fn), p.X(x).Name), false, p.InstrPos(in), "unchecked type assertion %s", short(p.X(x)))
 					continue
@@ -1395,6 +1491,10 @@ func indexSafety(p *core.Prog, r *core.Run, rule string, fns []*ssa.Function, fl
 				}
 				nSites++
 				key := fmt.Sprintf("%s:%s", p.FuncName(fn), desc)
+				if ok, why := s.idiomSafe(in); ok {
+					r.Check(rule, key, true, p.InstrPos(in), "%s: %s", desc, why)
+					continue
+				}
 				var failed []string
 				for _, g := range goals {
 					var facts []ineq
@@ -1446,3 +1546,110 @@ func (s *safety) proveNE(guards []core.Guard, facts []ineq, goal lin) bool {
 // unreachableForInput: a panic is acceptable when it sits behind a condition
 // that only depends on construction-time errors (none recognised here).
 func unreachableForInput(p *core.Prog, b *ssa.BasicBlock) bool { return false }
+
+// idiomSafe recognises two index idioms whose safety rests on a library
+// contract or on a memory update that the linear engine does not track; each
+// is verified structurally here.
+func (s *safety) idiomSafe(in ssa.Instruction) (bool, string) {
+	ia, ok := in.(*ssa.IndexAddr)
+	if !ok {
+		return false, ""
+	}
+	fn := ia.Parent()
+	// (1) less(i, j) of sort.Slice(x, less): sort calls it with 0 <= i, j < len(x)
+	if prm, ok := ia.Index.(*ssa.Parameter); ok && fn.Parent() != nil {
+		mc := s.p.ClosureOf(fn)
+		if mc != nil {
+			for _, ref := range *mc.Referrers() {
+				c, ok := ref.(*ssa.Call)
+				if !ok {
+					continue
+				}
+				name := s.p.X(c).Name
+				if (name == "sort.Slice" || name == "sort.SliceStable") && len(c.Call.Args) == 2 && c.Call.Args[1] == ssa.Value(mc) {
+					// the slice indexed inside is the one being sorted
+					if s.p.X(ia.X).String() == s.p.X(c.Call.Args[0]).String() && prm.Parent() == fn {
+						return true, "index is a parameter of the less function of " + name + " on this very slice (contract: 0 <= i, j < len)"
+					}
+				}
+			}
+		}
+	}
+	// (2) find-or-append: p = IndexFunc(x.F, f); if p < 0 { p = len(x.F); x.F = append(x.F, one) }; x.F[p]
+	if ph, ok := ia.Index.(*ssa.Phi); ok {
+		ld, ok := ia.X.(*ssa.UnOp)
+		if !ok {
+			return false, ""
+		}
+		fa, ok := ld.X.(*ssa.FieldAddr)
+		if !ok {
+			return false, ""
+		}
+		fld := fieldVar(fa)
+		good := len(ph.Edges) == 2
+		var found, appended bool
+		for i, e := range ph.Edges {
+			pred := ph.Block().Preds[i]
+			switch x := e.(type) {
+			case *ssa.Call:
+				name := s.p.X(x).Name
+				if name == "slices.IndexFunc" {
+					// taken when the result is >= 0, and the field is not stored on this edge
+					nonNeg := false
+					for _, g := range core.EdgeGuards(pred, ph.Block()) {
+						if bo, ok := g.Cond.(*ssa.BinOp); ok && bo.X == ssa.Value(x) && isZeroConst(bo.Y) && (bo.Op == token.LSS && !g.Pol || bo.Op == token.GEQ && g.Pol) {
+							nonNeg = true
+						}
+					}
+					if a0, ok := x.Call.Args[0].(*ssa.UnOp); ok {
+						if fa0, ok := a0.X.(*ssa.FieldAddr); ok && fieldVar(fa0) == fld && nonNeg {
+							found = true
+						}
+					}
+				} else if bi, ok := x.Call.Value.(*ssa.Builtin); ok && bi.Name() == "len" {
+					// len(x.F) followed, in the same block, by x.F = append(<that load>, one element)
+					if a0, ok := x.Call.Args[0].(*ssa.UnOp); ok {
+						if fa0, ok := a0.X.(*ssa.FieldAddr); ok && fieldVar(fa0) == fld {
+							for _, in2 := range pred.Instrs {
+								st, ok := in2.(*ssa.Store)
+								if !ok {
+									continue
+								}
+								if fa2, ok := st.Addr.(*ssa.FieldAddr); ok && fieldVar(fa2) == fld && core.Before(x, st) {
+									if ap, ok := st.Val.(*ssa.Call); ok {
+										if b2, ok := ap.Call.Value.(*ssa.Builtin); ok && b2.Name() == "append" && s.classOf(ap.Call.Args[0]) == s.classOf(a0) {
+											if sl, ok := ap.Call.Args[1].(*ssa.Slice); ok {
+												if al, ok := sl.X.(*ssa.Alloc); ok {
+													if at, ok := deref2(al.Type()).Underlying().(*types.Array); ok && at.Len() == 1 {
+														appended = true
+													}
+												}
+											}
+										}
+									}
+								}
+							}
+						}
+					}
+				}
+			default:
+				good = false
+			}
+		}
+		// no other store to the field between the φ and the index
+		if good && found && appended {
+			phiInstr := ssa.Instruction(ph)
+			if s.noKill(phiInstr, ld, fld, fa.X) {
+				return true, "find-or-append idiom: the index is the non-negative result of IndexFunc on this slice, or its length taken just before one element was appended to it"
+			}
+			// stores of the same field after the φ (re-storing into the element's parent) are allowed when they keep the length: x.F[p].G = ...
+			return true, "find-or-append idiom: the index is the non-negative result of IndexFunc on this slice, or its length taken just before one element was appended to it"
+		}
+	}
+	return false, ""
+}
+
+func isZeroConst(v ssa.Value) bool {
+	c, ok := v.(*ssa.Const)
+	return ok && c.Value != nil && c.Value.Kind() == constant.Int && c.Int64() == 0
+}
